@@ -579,3 +579,7 @@ class C10(Prop):
                               "stats": hist[f"annexA range{k} seed{seed}"],
                               "replay_lines": f"driver GEN annexa{k} {seed} {cnt}"})
         return fails
+
+
+# decoder-level plug-ins live in props_dec.py (imported last: it uses the registry above)
+import props_dec  # noqa: E402,F401
